@@ -463,8 +463,22 @@ class Program:
         spec_dir = os.path.join(os.path.dirname(rules_dir), "spec")
         keep = known_names([os.path.join(d, f) for d in (rules_dir, spec_dir) if os.path.isdir(d) for f in sorted(os.listdir(d)) if f.endswith(".py")])
         self.inline_stats = {"inlined_calls": 0, "helpers_removed": [], "helpers_inlined": []}
+        cm_stats = {}
+        if os.environ.get("VERIF_SA_NO_DISPATCH") != "1":
+            from .dispatch import spell_out_dispatch
+
+            cm_stats.update(spell_out_dispatch({mn: m.tree for mn, m in self.modules.items() if not mn.startswith(PKG + ".testing") and mn != PKG + ".testing"}))
+        if os.environ.get("VERIF_SA_NO_PARTIAL") != "1":
+            from .partials import partials_as_closures
+
+            cm_stats.update(partials_as_closures({mn: (m.tree, m.is_pkg) for mn, m in self.modules.items() if not mn.startswith(PKG + ".testing") and mn != PKG + ".testing"}))
+        if os.environ.get("VERIF_SA_NO_CTXMGR") != "1":
+            from .ctxmgr import inline_context_managers
+
+            cm_stats.update(inline_context_managers({mn: m.tree for mn, m in self.modules.items() if not mn.startswith(PKG + ".testing") and mn != PKG + ".testing"}))
         if os.environ.get("VERIF_SA_NO_INLINE") != "1":
             self.inline_stats = inline_package({mn: m.tree for mn, m in self.modules.items() if not mn.startswith(PKG + ".testing") and mn != PKG + ".testing"}, keep)
+        self.inline_stats.update(cm_stats)
         if os.environ.get("VERIF_SA_NO_UNROLL") != "1":
             from .unroll import unroll_package
 
